@@ -71,7 +71,11 @@ def classify(msg):
                     extra.append('lists')            # a request was (not) issued
                 if kinds & {'X'}:
                     extra.append('order:guard')
-                return ['log'] + extra
+                # method records (`log M <state> <method>`) that differ: the callback sequence itself differs
+                for x in (a, b):
+                    if x[0] == 'log' and len(x) > 3 and x[1] == 'M':
+                        extra.append('order:' + METHOD_CLASS.get(x[3], 'life'))
+                return ['log'] + sorted(set(extra))
             # a callback where a log record was expected (or vice versa): order of both streams
             other = a if a[0] == 'cb' else b
             return ['log', 'order:' + METHOD_CLASS.get(other[2] if len(other) > 2 else '', 'life')]
@@ -194,8 +198,10 @@ def EXTRA_SHAPES():
          [dict(), dict(bottomup=1, manual=1, log=2)]),
         # utility regions nested in utility regions: a nested region's utility is its head's times that of the
         # sub-state it would activate, on the change / utilize / randomize paths, headed and anonymous
-        (P('(C h1 i0 composite (L i0) (C h1 i0 utilitarian (L i0) (C h1 i0 random (L i0) (L i0) (C h1 i0 utilitarian (L i0) (L i0))) '
-           '(C h0 i0 random (L i0) (L i0))) (C h1 i0 random (C h1 i0 utilitarian (L i0) (L i0)) (L i0) (C h1 i0 random (L i0) (L i0))))'),
+        # (the utilitarian region's FIRST candidate is a headed region: it wins an all-zero arg-max and must then still be
+        # resolved inside — harness sweepZeroUtility)
+        (P('(C h1 i0 composite (L i0) (C h1 i0 utilitarian (C h1 i0 random (L i0) (L i0) (C h1 i0 utilitarian (L i0) (L i0))) (L i0)) '
+           '(C h1 i0 random (C h1 i0 utilitarian (L i0) (L i0)) (L i0) (C h0 i0 random (L i0) (L i0))))'),
          [dict(), dict(log=2, manual=1)]),
     ]
 
@@ -364,6 +370,31 @@ def search(pid, full, seed):
         tried, stats.d.get('ops', 0), len(progs), pid)
 
 
+def _excerpt(full, d, before=45, after=2):
+    """The history that leads to a divergence: the transcript lines before it (the run keeps the transcripts of
+    diverging programs), so that the replay file is a concrete input on which model and code differ."""
+    try:
+        m = re.search(r'line=(\d+)', d['message'])
+        tr = full['programs'][d['program']].get('transcript')
+        if not m or not tr or not os.path.exists(tr):
+            return ''
+        n = int(m.group(1))
+        out, scen = [], None
+        with open(tr, errors='replace') as f:
+            for k, line in enumerate(f, 1):
+                if line.startswith('scenario '):
+                    scen = line.strip()
+                if k > n + after:
+                    break
+                if k >= n - before:
+                    out.append(line.rstrip('\n')[:400])
+        args = '%d <scenarios> <ops> <sweep>' % full.get('seed', 1)
+        return ('\n      history (transcript of the real library, %s, harness arguments %s; the model differs at the last lines):\n        '
+                % (scen or '?', args)) + '\n        '.join(out)
+    except Exception as e:
+        return ' [no excerpt: %r]' % (e,)
+
+
 def finding_matches(known, rej):
     sig = known.get('signature', {})
     if 'tag' in sig and sig['tag'] != rej.get('tag'):
@@ -398,8 +429,9 @@ def run(pid, tier, seed):
         if featured(d['config']) and not base_diverges:
             hit.add('C15')
         if pid in hit:
-            res['broken'].append('correspondence (classes %s) on shape %s config %s: %s' % (
-                ','.join(classes), d['shape'], json.dumps(d['config'], sort_keys=True), d['message'][:900]))
+            res['broken'].append('correspondence (classes %s) on shape %s config %s: %s%s' % (
+                ','.join(classes), d['shape'], json.dumps(d['config'], sort_keys=True), d['message'][:900],
+                _excerpt(full, d)))
     # at most three examples per distinct kind of rejection
     seen = {}
     for r in full['rejections'].get(pid, []):
